@@ -204,10 +204,11 @@ CHECK_MSGS = [("No origin defined", 'no-origin'), ("No Origin defined", 'no-orig
               ("has not been registered in file's channels", 'channel-not-registered'),
               ("'file_id' of the Defining Origin", 'file-id'),
               ("does not belong to the same logical file", 'foreign-reference'),
-              ("is shared between logical files", 'shared-set')]
+              ("is shared between logical files", 'shared-set'),
+              ("has not been added to any frame", 'channel-frame-count'), ("frames; according to RP66", 'channel-frame-count')]
 
 
-def gen_ref_history(R):
+def gen_ref_history(R, hc=False):
     """objects of 1..3 logical files (sets named per logical file, sometimes shared), then reference assignments: mostly
     within a logical file, sometimes across; some logical files lack an origin / a channel / a frame"""
     n_lf = R.choice([1, 2, 2, 2, 3])
@@ -269,20 +270,48 @@ def gen_ref_history(R):
                 # (a channel has as many axes as dimensions: one)
                 picks = R.sample(pool, R.randint(1, min(3, len(pool)))) if (multi and attr != 'axis') else [R.choice(pool)]
                 assigns.append({'holder': hi, 'attr': attr, 'targets': picks, 'multi': multi})
-    return {'n_lf': n_lf, 'ops': merged, 'fid': fid, 'assigns': assigns}
+    if hc and R.random() < 0.6:
+        # in the mode a channel listed by no frame or by several is refused: often give every channel to exactly one frame
+        # of its logical file (when it has one)
+        for a in assigns:
+            if a['attr'] == 'channels':
+                a['_before'] = list(a['targets'])
+                a['targets'] = [t for t in a['targets'] if acc[t]['lf'] != acc[a['holder']]['lf']]
+        for ci, o in enumerate(acc):
+            if o['kind'] == 'channel':
+                frs = [a for a in assigns if a['attr'] == 'channels' and acc[a['holder']]['lf'] == o['lf']]
+                if frs:
+                    R.choice(frs)['targets'].append(ci)
+        for a in assigns:
+            # (every frame keeps an assignment: what it was created with is always replaced)
+            if a['attr'] == 'channels' and not a['targets']:
+                a['targets'] = a['_before']
+            a.pop('_before', None)
+    return {'n_lf': n_lf, 'ops': merged, 'fid': fid, 'assigns': assigns, 'hc': hc}
 
 
 def chk_req(h):
-    edges = ','.join(f"{a['holder']}:{t}:{1 if a['attr'] == 'channels' else 0}" for a in h['assigns'] for t in a['targets'])
+    acc = [o for o in h['ops'] if o['out'] == 'ok']
+    edges = ','.join(f"{a['holder']}:{t}:{1 if (a['attr'] == 'channels' and acc[a['holder']]['kind'] == 'frame') else 0}"
+                     for a in h['assigns'] for t in a['targets'])
     # FILE-ID values are attribute-level state outside the model's World: whether the defining origin of each logical
     # file carries the header's ID is read off the live objects (`fid_bits`, set by apply_ref_history)
     fid = h.get('fid_bits') or ''.join('0' if f == 'OTHER' else '1' for f in h['fid'])
-    return (f"chk {h['n_lf']} {KIDX['channel']} {KIDX['frame']} {fid} {edges or '-'} " +
+    return (f"{'chkhc' if h.get('hc') else 'chk'} {h['n_lf']} {KIDX['channel']} {KIDX['frame']} {fid} {edges or '-'} " +
             ' '.join(op_token(o) for o in h['ops']))
 
 
 def apply_ref_history(h, path):
-    """build the objects, assign the references through the public setters, write -> 'ok' | 'err <tag>' | 'other:<text>'"""
+    """build the objects, assign the references through the public setters, write -> 'ok' | 'err <tag>' | 'other:<text>'
+    (in high-compatibility mode when the history says so)"""
+    if h.get('hc'):
+        from dliswriter import high_compatibility_mode
+        with high_compatibility_mode():
+            return _apply_ref_history(h, path)
+    return _apply_ref_history(h, path)
+
+
+def _apply_ref_history(h, path):
     df = DLISFile(set_identifier='REFS', max_record_length=8192)
     lfs = [df.add_logical_file(fh_id=f'HDR{i}', fh_sequence_number=i + 1) for i in range(h['n_lf'])]
     live = []
